@@ -99,7 +99,7 @@ def commutant(A: np.ndarray | list[np.ndarray]) -> list[np.ndarray]:
     comm_matrix = np.vstack(comm_matrices) if len(comm_matrices) > 1 else comm_matrices[0]
 
     # Compute null space.
-    null_basis = null_space(comm_matrix)  # Basis vectors for commuting matrices
+    null_basis = null_space(comm_matrix, rcond=1e-10)  # Basis vectors for commuting matrices
 
     # Reshape each basis vector into a matrix of size (dim x dim).
     return [null_basis[:, i].reshape((dim, dim)) for i in range(null_basis.shape[1])]
